@@ -54,7 +54,9 @@ def gen_cases(rng, tier, dflt):
     pool = [0, ALL] + SINGLES + extras
     cases = []
     def add(layer, sw, oo, c1, c2):
-        cases.append({'id': len(cases), 'layer': layer, 'sw': sw, 'out_opts': oo, 'cap1': c1, 'cap2': c2})
+        # both request orders (see inittoggle.rs: DESTROY before the first INIT, double DESTROY, repeated INIT in round 2)
+        # alternate, so every (layer, switch combination) meets both over its capability words
+        cases.append({'id': len(cases), 'layer': layer, 'sw': sw, 'out_opts': oo, 'cap1': c1, 'cap2': c2, 'ord': len(cases) % 2})
     def caps_for(i, full):
         if tier != 'quick': return pool
         if not full: return [ALL, SINGLES[i % 5]]
@@ -68,6 +70,16 @@ def gen_cases(rng, tier, dflt):
         # configured out_opts other than the default: random, and the default without the zero-message bits
         for oo in (rng.getrandbits(64) & known, dflt & ~(ZMO | ZMOD), dflt | KPV2 | AOT):
             c1 = rng.choice(pool); add('vfs', sw, oo, c1, second(c1))
+    for sw in range(16):                                   # the backend mounted AFTER the first INIT (Vfs::mount initialises it)
+        for c1 in (pool if tier != 'quick' else [ALL, SINGLES[sw % 5]]):
+            add('vfsm', sw, None, c1, second(c1))
+    for sw in range(16):                                   # a second backend's init fails during the first INIT
+        for c1 in (pool if tier != 'quick' else [ALL, SINGLES[(sw + 2) % 5]]):
+            add('vfsf', sw, None, c1, second(c1))
+    for dax in (1, 2):                                     # passthrough dax_file_size = None / larger than the file (default block: Some(0))
+        for sw5 in (0, 1, 31):
+            for c1 in (ALL, DAX):
+                add('pt', sw5 | (1 << 5) | (dax << 7), None, c1, second(c1))
     for pol in (1, 0, 2, 3):                               # passthrough: do_import writeback no_open no_opendir killpriv_v2 x cache policy
         for sw5 in range(32):
             sw = sw5 | (pol << 5)
@@ -78,18 +90,27 @@ def gen_cases(rng, tier, dflt):
             add('ovl', sw, None, c1, second(c1))
     return cases
 
-RX = re.compile(r'^(\d+) I=(\S+) O=(\S+) D=(\S+) WB=(\S+) KP=(\S+) DAX=(\S+) R=(\S+) \| I=(\S+) O=(\S+) D=(\S+) WB=(\S+) KP=(\S+) DAX=(\S+)$')
+KEYS = ('I', 'O', 'D', 'WB', 'KP', 'DAX', 'RL', 'RD', 'C', 'CWB', 'KC', 'KS')
+_RND = ' '.join('%s=(\\S+)' % k for k in KEYS)
+RX = re.compile(r'^(\d+) ' + _RND + r' R=(\S+) \| ' + _RND + '$')
 
 def parse(line):
     m = RX.match(line.strip())
     if not m: return None
-    g = m.groups()
-    r1 = dict(zip(('I', 'O', 'D', 'WB', 'KP', 'DAX'), g[1:7]))
-    r2 = dict(zip(('I', 'O', 'D', 'WB', 'KP', 'DAX'), g[8:14]))
-    return int(g[0]), r1, g[7], r2
+    g = m.groups(); n = len(KEYS)
+    r1 = dict(zip(KEYS, g[1:1 + n]))
+    r2 = dict(zip(KEYS, g[2 + n:2 + 2 * n]))
+    return int(g[0]), r1, g[1 + n], r2
 
+# probe -> (feature bit, what "on" looks like).  The twins (RL RD C CWB KC KS) are other entry points that consult the
+# same switches as the first five.
+BITS = {'O': ZMO, 'D': ZMOD, 'WB': WBC, 'KP': KPV2, 'DAX': DAX, 'RL': ZMO, 'RD': ZMOD, 'C': ZMO, 'CWB': WBC, 'KC': KPV2, 'KS': KPV2}
+NAMES.update({'RL': 'no-open (RELEASE answered ENOSYS)', 'RD': 'no-opendir (RELEASEDIR answered ENOSYS)', 'C': 'no-open (CREATE returned no handle)',
+              'CWB': 'writeback flag rewriting on CREATE', 'KC': 'kill-priv on CREATE(O_TRUNC) of an existing file', 'KS': 'kill-priv on SETATTR(size)'})
 def on(r, k):
-    return r[k] == 'enosys' if k in ('O', 'D') else r[k] == '1'
+    if k in ('O', 'D', 'RL', 'RD'): return r[k] == 'enosys'
+    if k == 'C': return r[k] == 'nh'
+    return r[k] == '1'
 
 def coq_ires(s):
     k, v = s.split(':')
@@ -98,27 +119,32 @@ def coq_round(r):
     def pr(s): return {'enosys': 'PEnosys', 'h': 'PHandle'}.get(s)
     def tri(s): return {'1': '(Some true)', '0': '(Some false)', 'na': 'None'}.get(s)
     def b(s): return {'1': 'true', '0': 'false'}.get(s)
+    def up(s): return 'UOk' if s == 'ok' else ('UEnosys' if s == 'enosys' else ('UOther' if s.startswith('err:') else None))
+    def ch(s): return {'h': 'true', 'nh': 'false'}.get(s)
+    tw = [up(r['RL']), up(r['RD']), ch(r['C']), tri(r['CWB']), tri(r['KC']), tri(r['KS'])]
     parts = [coq_ires(r['I']), pr(r['O']), pr(r['D']), tri(r['WB']), tri(r['KP']), b(r['DAX'])]
-    if any(p is None for p in parts) or int(r['I'].split(':')[1]) < 0: return None
-    return '(mkR %s)' % ' '.join(parts)
+    if any(p is None for p in parts + tw) or int(r['I'].split(':')[1]) < 0: return None
+    return '(mkR %s (mkW %s))' % (' '.join(parts), ' '.join(tw))
 
 def coq_case(c, r1, rr, r2):
     a, b = coq_round(r1), coq_round(r2)
     if a is None or b is None or int(rr.split(':')[1]) < 0: return None
     obs = '(%s, %s, %s)' % (a, coq_ires(rr), b)
+    o_ = 'true' if c['ord'] else 'false'
     if c['layer'] == 'pt':
-        m = '(pt_case (policy_of_bits %d) (lcfg_of_bits %d) %d %d)' % (c['sw'], c['sw'], c['cap1'], c['cap2'])
+        m = '(pt_case %s (dax_applies_of_bits %d) (policy_of_bits %d) (lcfg_of_bits %d) %d %d)' % (o_, c['sw'], c['sw'], c['sw'], c['cap1'], c['cap2'])
     elif c['layer'] == 'ovl':
-        m = '(ovl_case (lcfg_of_bits %d) %d %d)' % (c['sw'], c['cap1'], c['cap2'])
+        m = '(ovl_case %s (lcfg_of_bits %d) %d %d)' % (o_, c['sw'], c['cap1'], c['cap2'])
     else:
         oo = 'None' if c['out_opts'] is None else '(Some %d)' % c['out_opts']
-        m = '(vfs_case (vstate_of_bits %d %s) %d %d)' % (c['sw'], oo, c['cap1'], c['cap2'])
+        if c['layer'] == 'vfsf': m = '(vfs_fail_case (vstate_of_bits %d %s) %d %d)' % (c['sw'], oo, c['cap1'], c['cap2'])
+        else: m = '(vfs_case %s (vstate_of_bits %d %s) %d %d)' % (o_, c['sw'], oo, c['cap1'], c['cap2'])
     return '(case_eqb %s %s)' % (m, obs)
 
 def check_property(c, r1, rr, r2, dflt):
     """the property itself, on the observations of one case -> list of findings"""
     out = []
-    layer = c['layer']
+    layer = c['layer']; is_vfs = layer in ('vfs', 'vfsm', 'vfsf')
     def bad(what, sig):
         s = {'part': 'toggle', 'layer': layer}; s.update(sig)
         out.append({'what': '%s sw=%d out_opts=%s cap1=0x%x cap2=0x%x: %s' % (layer, c['sw'], c['out_opts'], c['cap1'], c['cap2'], what),
@@ -126,37 +152,39 @@ def check_property(c, r1, rr, r2, dflt):
     for k, (r, cap) in enumerate(((r1, c['cap1']), (r2, c['cap2'])), 1):
         for p, bit in BITS.items():
             if on(r, p) and not cap & bit:
-                if layer == 'ovl' and p == 'WB' and c['sw'] & 2:
+                if layer == 'ovl' and p in ('WB', 'CWB') and c['sw'] & 2:
                     sig = {'defect': 'ovl-writeback-config'}
                 elif k == 2 and c['cap1'] & bit:
                     # switched on by the first INIT and still on after DESTROY + an INIT that did not negotiate it (the defect
                     # repaired by fix: 3c323ec); under a Vfs the sticky switch is the backend's (the Vfs's own are recomputed)
-                    sig = {'defect': 'sticky-reinit', 'layer': 'pt' if layer == 'vfs' else layer}
+                    sig = {'defect': 'sticky-reinit', 'layer': 'pt' if is_vfs else layer}
                 else:
                     sig = {'probe': p, 'round': k}
                 bad('%s is on after INIT #%d although the capability word lacks the feature bit 0x%x' % (NAMES[p], k, bit), sig)
         if r['I'].startswith('ok:'):
             bits = int(r['I'][3:])
-            extra = (bits & ~cap) if layer == 'vfs' else (bits & ~BASE & ~cap)
+            extra = (bits & ~cap) if is_vfs else (bits & ~BASE & ~cap)
             if extra:
                 bad('INIT #%d returned option bits 0x%x that the capability word 0x%x does not have' % (k, extra, cap), {'probe': 'opts', 'round': k})
-            if layer == 'vfs' and c['out_opts'] is None:
+            if is_vfs and c['out_opts'] is None:
                 for p, bit in (('O', ZMO), ('D', ZMOD)):
                     # with the default out_opts the switch is on exactly when the bit is in the reply (both rounds: the
                     # stored out_opts only shrink, and the backend follows the word it is given)
                     if on(r, p) != bool(bits & bit):
                         bad('%s is %s but INIT #%d %s 0x%x' % (NAMES[p], 'on' if on(r, p) else 'off', k,
                                                                 'did not enable' if on(r, p) else 'enabled', bit), {'probe': p + '-iff', 'round': k})
-        elif layer != 'vfs':
+        elif not is_vfs:
             bad('INIT #%d failed: %s' % (k, r['I']), {'probe': 'init', 'round': k})
-    if layer == 'vfs':
+    if is_vfs and layer != 'vfsf':       # (vfsf: the first INIT failed, the repeated one is the first to succeed)
         if rr != 'err:22':
             bad('a second INIT without DESTROY was answered %s instead of EINVAL' % rr, {'probe': 'reinit'})
     if layer == 'pt' and not c['sw'] & 1:
         # under a VFS (do_import = false): exactly the capability word
         for p, bit in BITS.items():
             if r1[p] == 'na': continue
-            if on(r1, p) != bool(c['cap1'] & bit):
+            expect = bool(c['cap1'] & bit)
+            if p == 'DAX' and (c['sw'] >> 7) & 3: expect = False       # dax_file_size unset / larger than the file: never
+            if on(r1, p) != expect:
                 bad('passthrough with do_import=false: %s is %s but the negotiated word %s 0x%x' % (
                     NAMES[p], 'on' if on(r1, p) else 'off', 'lacks' if on(r1, p) else 'has', bit), {'probe': p + '-exact', 'round': 1})
     return out
@@ -173,7 +201,7 @@ def run(rng, tier, bindir, findings, broken):
     cf = os.path.join(d, 'toggle.cases')
     with open(cf, 'w') as f:
         for c in cases:
-            f.write('%d %s %d %s %d %d\n' % (c['id'], c['layer'], c['sw'], '-' if c['out_opts'] is None else c['out_opts'], c['cap1'], c['cap2']))
+            f.write('%d %s %d %s %d %d %d\n' % (c['id'], c['layer'], c['sw'], '-' if c['out_opts'] is None else c['out_opts'], c['cap1'], c['cap2'], c['ord']))
     rc, out = run_cmd([os.path.join(bindir, 'inittoggle'), cf])
     obs = {}
     for line in out.splitlines():
@@ -197,7 +225,7 @@ def run(rng, tier, bindir, findings, broken):
             if not fs: broken.append({'kind': 'correspondence', 'name': 'inittoggle observation outside the model', 'case': dict(c, observed=o)})
             continue
         exprs.append(e); meta.append(c)
-        nontriv.add((c['layer'], c['sw'], c['out_opts'] is None, tuple(on(r1, p) for p in BITS), tuple(on(r2, p) for p in BITS)))
+        nontriv.add((c['layer'], c['sw'], c['ord'], c['out_opts'] is None, tuple(on(r1, p) for p in BITS), tuple(on(r2, p) for p in BITS)))
         if len(samples) < 3 and any(on(r1, p) for p in BITS):
             samples.append(dict(c, observed={'round1': r1, 'reinit': rr, 'round2': r2}))
     # (Model/InitToggles.vo is in the cone of Props/C12.vo, built by std_audit)
@@ -211,9 +239,51 @@ def run(rng, tier, bindir, findings, broken):
             broken.append({'kind': 'correspondence', 'name': 'Model/InitToggles.v vfs_default_out vs VfsOptions::default()', 'case': {'source': dflt}})
             continue
         if c['id'] in prop_failed: continue       # already reported as a failing input
-        broken.append({'kind': 'correspondence', 'name': 'Model/InitToggles.v vs %s::init' % {'vfs': 'Vfs', 'pt': 'PassthroughFs', 'ovl': 'OverlayFs'}[c['layer']],
+        broken.append({'kind': 'correspondence', 'name': 'Model/InitToggles.v vs %s::init' % {'vfs': 'Vfs', 'vfsm': 'Vfs (backend mounted after INIT)', 'vfsf': 'Vfs (a backend init fails)', 'pt': 'PassthroughFs', 'ovl': 'OverlayFs'}[c['layer']],
                        'case': dict(c, observed=obs[c['id']])})
-    return len(obs), len(nontriv), samples
+    n_async = run_async_twin(rng, tier, dflt, findings, broken)
+    return len(obs) + n_async, len(nontriv), samples
+
+def run_async_twin(rng, tier, dflt, findings, broken):
+    """feature async-io: Vfs::async_open (own copy of the no-open test) and PassthroughFs::async_open (delegates) must
+    answer like the sync methods, and ENOSYS only with ZERO_MESSAGE_OPEN in the word of the last INIT.  -> number of cases"""
+    ok, out, bindir = cargo_build(['inittoggle_async'], features=['async-io'])
+    if not ok:
+        broken.append({'kind': 'harness-build', 'name': 'inittoggle_async', 'log': out[-2000:]}); return 0
+    words = [0, ALL, ZMO, ALL & ~ZMO]
+    cases = []
+    for sw in range(16):
+        for i, c1 in enumerate(words):
+            cases.append((len(cases), sw, None, c1, words[(i + 1 + sw) % 4]))
+        cases.append((len(cases), sw, dflt & ~(ZMO | ZMOD), ALL, ZMO))
+    if tier != 'quick':
+        for _ in range(300): cases.append((len(cases), rng.randrange(16), None, rng.getrandbits(64), rng.getrandbits(64)))
+    d = os.path.join(SCRATCH, 'c12'); os.makedirs(d, exist_ok=True)
+    cf = os.path.join(d, 'toggle_async.cases')
+    with open(cf, 'w') as f:
+        for i, sw, oo, c1, c2 in cases: f.write('%d %d %s %d %d\n' % (i, sw, '-' if oo is None else oo, c1, c2))
+    rc, out = run_cmd([os.path.join(bindir, 'inittoggle_async'), cf])
+    seen = 0
+    rx = re.compile(r'^(\d+) V1=(\S+)/(\S+) P1=(\S+)/(\S+) \| V2=(\S+)/(\S+) P2=(\S+)/(\S+)$')
+    for line in out.splitlines():
+        m = rx.match(line.strip())
+        if not m: continue
+        seen += 1
+        i, sw, oo, c1, c2 = cases[int(m.group(1))]
+        g = m.groups()[1:]
+        for k, cap in ((0, c1), (1, c2)):
+            vs, va, ps, pa = g[4 * k:4 * k + 4]
+            inp = {'layer': 'vfs-async', 'sw': sw, 'out_opts': oo, 'cap1': c1, 'cap2': c2, 'observed': line.strip()}
+            for who, a, b in (('Vfs', vs, va), ('PassthroughFs', ps, pa)):
+                if a != b:
+                    findings.append({'what': '%s: open answered %s but async_open answered %s after INIT #%d (sw=%d cap=0x%x)' % (who, a, b, k + 1, sw, cap),
+                                     'sig': {'part': 'toggle', 'layer': 'async', 'probe': 'twin'}, 'input': inp})
+                if b == 'enosys' and not cap & ZMO:
+                    findings.append({'what': '%s::async_open answered ENOSYS after INIT #%d although the capability word 0x%x lacks ZERO_MESSAGE_OPEN (sw=%d)' % (who, k + 1, cap, sw),
+                                     'sig': {'part': 'toggle', 'layer': 'async', 'probe': 'AO', 'round': k + 1}, 'input': inp})
+    if rc != 0 or seen != len(cases):
+        broken.append({'kind': 'harness-run', 'name': 'inittoggle_async', 'log': out[-800:]})
+    return seen
 
 def run_cmd(cmd):
     import vlib
